@@ -60,6 +60,8 @@ pub enum Ty {
     Vec(Box<Ty>),
     Tup(Box<Ty>, Box<Ty>),
     Arr(Box<Ty>),
+    /// one-element array
+    Arr1(Box<Ty>),
     BoxT(Box<Ty>),
     LockOptGc,
     RefLockVec(Box<Ty>),
@@ -99,7 +101,7 @@ impl Ty {
     pub fn is_static(&self) -> bool {
         match self {
             Ty::U32 | Ty::Str | Ty::Loud | Ty::NoImpl => true,
-            Ty::Opt(t) | Ty::Vec(t) | Ty::Arr(t) | Ty::BoxT(t) => t.is_static(),
+            Ty::Opt(t) | Ty::Vec(t) | Ty::Arr(t) | Ty::Arr1(t) | Ty::BoxT(t) => t.is_static(),
             Ty::Tup(a, b) => a.is_static() && b.is_static(),
             _ => false,
         }
@@ -107,7 +109,7 @@ impl Ty {
     fn mentions_gc(&self) -> bool {
         match self {
             Ty::Gc | Ty::Weak | Ty::LockOptGc => true,
-            Ty::Opt(t) | Ty::Vec(t) | Ty::Arr(t) | Ty::BoxT(t) | Ty::RefLockVec(t) => t.mentions_gc(),
+            Ty::Opt(t) | Ty::Vec(t) | Ty::Arr(t) | Ty::Arr1(t) | Ty::BoxT(t) | Ty::RefLockVec(t) => t.mentions_gc(),
             Ty::Tup(a, b) => a.mentions_gc() || b.mentions_gc(),
             Ty::Nested(_) => true,
             _ => false,
@@ -125,6 +127,7 @@ impl Ty {
             Ty::Vec(t) => format!("Vec<{}>", t.render(lt)),
             Ty::Tup(a, b) => format!("({}, {})", a.render(lt), b.render(lt)),
             Ty::Arr(t) => format!("[{}; 2]", t.render(lt)),
+            Ty::Arr1(t) => format!("[{}; 1]", t.render(lt)),
             Ty::BoxT(t) => format!("Box<{}>", t.render(lt)),
             Ty::LockOptGc => format!("Lock<Option<Gc<{lt}, u32>>>"),
             Ty::RefLockVec(t) => format!("RefLock<Vec<{}>>", t.render(lt)),
@@ -145,6 +148,7 @@ impl Ty {
             Ty::Vec(t) => format!("vec![{}, {}]", t.value(inst, traced), t.value(inst, traced)),
             Ty::Tup(a, b) => format!("({}, {})", a.value(inst, traced), b.value(inst, traced)),
             Ty::Arr(t) => format!("[{}, {}]", t.value(inst, traced), t.value(inst, traced)),
+            Ty::Arr1(t) => format!("[{}]", t.value(inst, traced)),
             Ty::BoxT(t) => format!("Box::new({})", t.value(inst, traced)),
             Ty::LockOptGc => "Lock::new(Some(e.s(mc)))".into(),
             Ty::RefLockVec(t) => format!("RefLock::new(vec![{}])", t.value(inst, traced)),
@@ -156,7 +160,7 @@ impl Ty {
         match self {
             Ty::Gc | Ty::Weak | Ty::Loud | Ty::LockOptGc => true,
             Ty::U32 | Ty::Str | Ty::NoImpl => false,
-            Ty::Opt(t) | Ty::Vec(t) | Ty::Arr(t) | Ty::BoxT(t) | Ty::RefLockVec(t) => t.needs_trace(inst, nested_nt),
+            Ty::Opt(t) | Ty::Vec(t) | Ty::Arr(t) | Ty::Arr1(t) | Ty::BoxT(t) | Ty::RefLockVec(t) => t.needs_trace(inst, nested_nt),
             Ty::Tup(a, b) => a.needs_trace(inst, nested_nt) || b.needs_trace(inst, nested_nt),
             Ty::Param(i) => inst[*i].nt(),
             Ty::Nested(j) => nested_nt[*j],
@@ -467,6 +471,7 @@ fn any_ty(n_params: usize, n_nested: usize) -> BoxedStrategy<Ty> {
             inner.clone().prop_map(|t| Ty::Vec(Box::new(t))),
             (inner.clone(), inner.clone()).prop_map(|(a, b)| Ty::Tup(Box::new(a), Box::new(b))),
             inner.clone().prop_map(|t| Ty::Arr(Box::new(t))),
+            inner.clone().prop_map(|t| Ty::Arr1(Box::new(t))),
             inner.clone().prop_map(|t| Ty::BoxT(Box::new(t))),
             inner.prop_map(|t| Ty::RefLockVec(Box::new(t))),
         ]
@@ -543,7 +548,7 @@ pub fn shape_strategy(n_nested: usize) -> BoxedStrategy<Shape> {
 fn uses_param(t: &Ty, i: usize) -> bool {
     match t {
         Ty::Param(j) => *j == i,
-        Ty::Opt(t) | Ty::Vec(t) | Ty::Arr(t) | Ty::BoxT(t) | Ty::RefLockVec(t) => uses_param(t, i),
+        Ty::Opt(t) | Ty::Vec(t) | Ty::Arr(t) | Ty::Arr1(t) | Ty::BoxT(t) | Ty::RefLockVec(t) => uses_param(t, i),
         Ty::Tup(a, b) => uses_param(a, i) || uses_param(b, i),
         _ => false,
     }
@@ -727,7 +732,10 @@ pub fn reject_probes(shapes: &[Shape], picks: &[usize]) -> Vec<(String, String, 
                 }
             }
             7 => {
-                if let Body::Enum(vs) = &sh.body {
+                // (in whole-type require_static mode the derive emits an empty impl bounded by
+                // `Self: 'static` and does not look at inner attributes: a redundant attribute on a
+                // variant is harmless there and is not among the refusals the property lists)
+                if let (Body::Enum(vs), true) = (&sh.body, sh.mode != Mode::RequireStatic) {
                     let v = pick % vs.len();
                     let decl = sh.decl("T", None, "");
                     let needle = format!("    V{v}");
